@@ -38,7 +38,7 @@ fn varbind(o: &[u8]) -> W {
     w
 }
 
-//@ C03 quick timeout=900 | Get PDU with THREE OIDs (3 symbolic content octets each) in a given order: serialised in that order, each bound to NULL, error fields zero, tag a0
+//@ C03 thorough timeout=1800 optional | (through pyo3 model, 18 GB) Get PDU with THREE OIDs (3 symbolic content octets each) in a given order: serialised in that order, each bound to NULL, error fields zero, tag a0
 #[kani::proof]
 #[kani::unwind(10)]
 #[kani::stub(alloc::fmt::format, stub_format)]
@@ -95,14 +95,14 @@ macro_rules! pdu_getbulk {
         }
     };
 }
-//@ C03 quick timeout=900 | GetBulk via OpGetBulk::from_python(oid, 20): tag a5, non-repeaters 0, max-repetitions 20, the OID bound to NULL
+//@ C03 thorough timeout=1800 optional | (18 GB) GetBulk via OpGetBulk::from_python(oid, 20): tag a5, non-repeaters 0, max-repetitions 20, the OID bound to NULL
 pdu_getbulk!(pdu_getbulk_20, 20i64);
 //@ C03 thorough timeout=1800 optional | GetBulk with max-repetitions 2^31-1 (largest allowed, 4 content octets)
 pdu_getbulk!(pdu_getbulk_max, 0x7fff_ffffi64);
 //@ C03 thorough timeout=1800 optional | GetBulk with max-repetitions 128 (needs a leading zero octet)
 pdu_getbulk!(pdu_getbulk_128, 128i64);
 
-//@ C03 quick timeout=900 | GetNext via OpGetNext::from_python: tag a1, one OID (3 symbolic octets) bound to NULL, error fields zero
+//@ C03 thorough timeout=1800 optional | (18 GB) GetNext via OpGetNext::from_python: tag a1, one OID (3 symbolic octets) bound to NULL, error fields zero
 #[kani::proof]
 #[kani::unwind(10)]
 #[kani::stub(alloc::fmt::format, stub_format)]
@@ -126,7 +126,7 @@ fn pdu_getnext() {
     core::mem::forget(pdu);
 }
 
-//@ C03,C13 quick timeout=900 | refresh via OpRefresh::from_python: a Get PDU with an EMPTY varbind list (the engine-discovery probe)
+//@ C03,C13 thorough timeout=1800 optional | (18 GB) refresh via OpRefresh::from_python: a Get PDU with an EMPTY varbind list (the engine-discovery probe)
 #[kani::proof]
 #[kani::unwind(10)]
 #[kani::stub(alloc::fmt::format, stub_format)]
@@ -145,4 +145,38 @@ fn pdu_refresh() {
     kani::cover!(true, "encoded");
     core::mem::forget(buf2);
     core::mem::forget(r);
+}
+
+
+//@ C03 quick | Op::from_python fills the PDU exactly as asked: OpGetNext -> GetNextRequest{request_id, [oid]}; OpGetBulk -> GetBulkRequest{request_id, non_repeaters 0, max_repetitions as given (any i64), [oid]}; OpRefresh -> GetRequest{request_id, []} - for any request-id and any 3-octet OID
+#[kani::proof]
+#[kani::unwind(6)]
+#[kani::stub(alloc::fmt::format, stub_format)]
+fn from_python_fields() {
+    let a: [u8; 3] = kani::any();
+    let rid: i64 = kani::any();
+    let mr: i64 = kani::any();
+    match <OpGetNext as PyOp<SnmpOid>>::from_python(SnmpOid(Cow::Borrowed(&a[..])), rid).ok().expect("pdu") {
+        SnmpPdu::GetNextRequest(g) => {
+            assert!(g.request_id == rid && g.vars.len() == 1 && g.vars[0].0.as_ptr() == a.as_ptr() && g.vars[0].0.len() == 3, "getnext_pdu_fields");
+            core::mem::forget(g);
+        }
+        _ => panic!("getnext_pdu_kind"),
+    }
+    match <OpGetBulk as PyOp<(SnmpOid, i64)>>::from_python((SnmpOid(Cow::Borrowed(&a[..])), mr), rid).ok().expect("pdu") {
+        SnmpPdu::GetBulkRequest(g) => {
+            assert!(g.request_id == rid && g.non_repeaters == 0 && g.max_repetitions == mr, "getbulk_pdu_fields");
+            assert!(g.vars.len() == 1 && g.vars[0].0.as_ptr() == a.as_ptr(), "getbulk_pdu_oid");
+            core::mem::forget(g);
+        }
+        _ => panic!("getbulk_pdu_kind"),
+    }
+    match <OpRefresh as PyOp<()>>::from_python((), rid).ok().expect("pdu") {
+        SnmpPdu::GetRequest(g) => {
+            assert!(g.request_id == rid && g.vars.is_empty(), "refresh_pdu_fields");
+            core::mem::forget(g);
+        }
+        _ => panic!("refresh_pdu_kind"),
+    }
+    kani::cover!(mr > 65535, "large max-repetitions");
 }
